@@ -25,7 +25,7 @@ PROP = "C16"
 CLASSES = ["ConvexPolyhedron", "Polyhedron", "ConvexSpheropolyhedron", "Polygon",
            "ConvexPolygon", "ConvexSpheropolygon", "Circle", "Ellipse", "Sphere", "Ellipsoid"]
 TIERS = {
-    "quick": {"runs": 1500, "chunk": 10, "shrink_cap_s": 60, "max_minimised": 10},
+    "quick": {"runs": 2400, "chunk": 10, "shrink_cap_s": 60, "max_minimised": 10},
     "thorough": {"budget_s": 1200, "chunk": 10, "shrink_cap_s": 180, "max_minimised": 20},
     "run_cap_s": 180,
 }
